@@ -19,6 +19,18 @@ from vlib.sym import (SInt, SFloat, SBool, SStr, is_int, is_float, is_num, is_st
                       to_float, rope_eq, rope_term, norm_rope, Cut, RNE)
 
 
+_ESC = {"n": "\n", "t": "\t", "r": "\r", "a": "\a", "b": "\b", "f": "\f", "v": "\v", "\\": "\\", "'": "'"}
+def sylt_string_value(text):
+    """the value a string literal denotes: a backslash followed by one of n t r a b f v \\ ' is that escape, every other backslash is a backslash"""
+    if not isinstance(text, str) or "\\" not in text: return text
+    out = []; i = 0
+    while i < len(text):
+        c = text[i]
+        if c == "\\" and i + 1 < len(text) and text[i + 1] in _ESC: out.append(_ESC[text[i + 1]]); i += 2
+        else: out.append(c); i += 1
+    return "".join(out)
+
+
 class RefStuck(Exception):
     """the reference semantics has no rule: the template is ill-typed or outside the modelled core"""
 
@@ -244,7 +256,8 @@ class Ref:
         k = e[0]
         self.steps += 1
         if self.steps > self.max_steps: raise Cut("step budget")
-        if k in ("int", "float", "str", "bool"): return e[1]
+        if k == "str": return sylt_string_value(e[1])
+        if k in ("int", "float", "bool"): return e[1]
         if k == "nil": return NIL
         if k == "hole": return self.holes[e[1]]
         if k == "paren": return self.ev(e[1], env)
